@@ -333,6 +333,25 @@ VOP(dt_remove)
 	Out("dt_remove " + FullLine());
 }
 
+// reproduction aid (no model counterpart, not used by any generator): what POST /v1/objects/downtimes/<name>
+// {"attrs":{"triggers":[...]}} does - `triggers` is a [state] attribute without no_user_modify
+VOP(dt_settriggers)
+{
+	auto it = f_DtName.find(a.num("id"));
+	if (it != f_DtName.end()) {
+		Downtime::Ptr d = Downtime::GetByName(it->second);
+		ArrayData names;
+		std::istringstream is(a.str("list", ""));
+		std::string tok;
+		while (std::getline(is, tok, ',')) {
+			auto jt = f_DtName.find(std::stol(tok));
+			if (jt != f_DtName.end()) names.push_back(jt->second);
+		}
+		if (d) d->ModifyAttribute("triggers", new Array(std::move(names)));
+	}
+	Out("dt_settriggers " + FullLine());
+}
+
 VOP(dt_pause)
 {
 	auto it = f_DtName.find(a.num("id"));
